@@ -87,8 +87,53 @@ pub(crate) fn shortest_digits(abs: f64) -> (String, i32) {
         Some((m, e)) => (m, e.parse::<i32>().unwrap_or(0)),
         None => (sci.as_str(), 0),
     };
-    let digits: String = mantissa.chars().filter(|c| c.is_ascii_digit()).collect();
+    let mut digits: String = mantissa.chars().filter(|c| c.is_ascii_digit()).collect();
+    // When `abs` lies exactly halfway between two shortest candidates, ECMAScript takes the
+    // one whose last digit is even; `{:e}` takes the upper one.  The exact decimal expansion
+    // of a halfway value is the shortest digits' length plus one digit, and that digit is 5.
+    let k = digits.len();
+    let exact = format!("{:.*e}", k + 1, abs);
+    let exact_digits: String = exact
+        .split('e')
+        .next()
+        .unwrap_or("")
+        .chars()
+        .filter(|c| c.is_ascii_digit())
+        .collect();
+    if exact_digits.len() == k + 2
+        && exact_digits.ends_with("50")
+        && exact_digits.get(..k).is_some_and(|lower| {
+            // the lower candidate is the exact expansion truncated to k digits
+            let last_upper = digits.as_bytes().last().copied().unwrap_or(b'0');
+            let last_lower = lower.as_bytes().last().copied().unwrap_or(b'0');
+            last_upper % 2 == 1 && last_lower % 2 == 0 && lower != digits && k > 1
+        })
+        && let Some(lower) = exact_digits.get(..k)
+        && format!("{}e{}", lower_mantissa(lower), exponent).parse::<f64>().ok() == Some(abs)
+        // a true tie: the exact expansion ends after that 5 (a double has at most 767
+        // significant decimal digits)
+        && format!("{:.800e}", abs)
+            .split('e')
+            .next()
+            .unwrap_or("")
+            .chars()
+            .filter(|c| c.is_ascii_digit())
+            .skip(k + 1)
+            .all(|c| c == '0')
+    {
+        digits = lower.to_string();
+    }
     (digits, exponent + 1)
+}
+
+/// "d.ddd" from a digit string
+fn lower_mantissa(digits: &str) -> String {
+    let (first, rest) = digits.split_at(1.min(digits.len()));
+    if rest.is_empty() {
+        first.to_string()
+    } else {
+        format!("{}.{}", first, rest)
+    }
 }
 
 /// Number::toString layout of `0.digits x 10^point` (digits non-empty, no sign).
